@@ -8,7 +8,7 @@ must fire on every run and the program-wide instance counts must stay above the 
 
 S1  no comparison with +-infinity is constant: `x <= infinity`, `x >= -infinity` (always true), `x > ... `: see INF_BAD
 S2  a value that is "a position or -1" (result of pos()/number()/index(), an element of a permutation array) is compared with 0 only
-    by `< 0` / `>= 0`: `> 0` and `<= 0` treat position 0 as "absent"
+    by `< 0` / `>= 0`: `> 0` and `<= 0` treat position 0 as "absent" (also: int locals that are initialised with or assigned -1)
 S4  a descending counting loop (`for(v = <computed>; v OP 0; --v)`) runs while v >= 0: `v > 0` skips the entry 0
 S5  inside a loop over the positions 0..size()-1 of a sparse vector, the vector is read through index(p) / value(p) / element(p),
     never subscripted by index with the position
@@ -352,6 +352,14 @@ PAIR_ASYMMETRIC = {
     'SPxFastRT<double>::minSelect/maxSelect':
         'the loop exchanges low[] and up[]; the final computation of bestDelta keeps low / up and flips the sign test on upd[bestNr] instead - the same thing written the other way round',
 }
+# position-or-minus-one values tested with `> 0` that are accepted: '<function>|<value>' -> reason
+SENTINEL_ACCEPTED = {
+    'SPxFastRT<double>::minSelect|local bestNr':
+        '`nr < 0 && bestNr > 0` skips the computation of bestDelta when the best instable candidate has index 0; bestDelta only steers the '
+        'ratio test\'s retry / shift heuristic (a step is re-tried with relaxed stability), no result depends on it',
+    'SPxFastRT<double>::maxSelect|local bestNr':
+        'as in minSelect: bestDelta only steers the retry / shift heuristic of the ratio test',
+}
 # constant comparisons that are accepted: key -> reason
 CONSTANT_ACCEPTED = {
     'SPxMainSM<double>::propagatePseudoobj|cmp(lp.upper(j) >= -inf)#1':
@@ -369,9 +377,11 @@ TEXT = {
     'S4': 'a descending counting loop that starts at a computed value runs down to 0 (`>= 0`), not to 1',
     'S5': 'inside a loop over the positions of a sparse vector the vector is never subscripted by index with the position',
     'S6': 'an else-if chain (or two consecutive ifs) with lower/upper (or sign) mirror-image conditions has mirror-image arms',
+    'S8': 'when one arm of a ?: on the optimisation sense is a negation, it negates exactly the other arm (`min ? e : -e`)',
     'S7': 'two member functions whose names are lower/upper (lhs/rhs, min/max, ...) mirror images and whose bodies have the same shape are mirror images',
 }
-FLOORS = {'S1': 350, 'S2': 60, 'S4': 260, 'S5': 150, 'S6': 45, 'S7': 90}
+FLOORS = {'S1': 350, 'S2': 60, 'S4': 260, 'S5': 150, 'S6': 45, 'S7': 90, 'S8': 10}
+SENSEPAT = re.compile(r'MINIMIZE|MAXIMIZE|\bmaximizing\b|\bminimizing\b|maxSense|spxSense|m_thesense')
 SPARSE = re.compile(r'^(const )?(class )?(soplex::)?(SVectorBase|SSVectorBase|DSVectorBase|UnitVectorBase)<')
 PERMNAME = re.compile(r'perm', re.I)
 
@@ -404,6 +414,13 @@ def _scan(fb):
             ndead += 1
             continue
         seen = {}
+        # locals that hold "an index or -1": initialised with / assigned the literal -1
+        m1loc = set(x.u for x in f.nodes if x.k == 'VarDecl' and x.t == 'int' and x.c and render(strip(x.kids[0])).strip('()') == '-1')
+        for x in f.nodes:
+            if x.k == 'BinaryOperator' and x.o == '=' and render(strip(x.kids[1])).strip('()') == '-1':
+                l_ = strip(x.kids[0])
+                if l_.k == 'DeclRefExpr' and l_.dk == 'local' and l_.t == 'int':
+                    m1loc.add(l_.u)
 
         def key(base):
             seen[base] = seen.get(base, 0) + 1
@@ -446,11 +463,26 @@ def _scan(fb):
                         nm = base.short if base.n else ''
                         if nm and PERMNAME.search(nm) and 'int' in (x.t or 'int'):
                             what = '%s[]' % nm
+                    elif x.k == 'DeclRefExpr' and x.u in m1loc:
+                        what = 'local %s' % x.n
+                    if what and ('%s|%s' % (_fname(f), what)) in SENTINEL_ACCEPTED and o not in ('<', '>='):
+                        put('S2', 'cmp(%s %s 0)' % (what, o), n, True, 'accepted: ' + SENTINEL_ACCEPTED['%s|%s' % (_fname(f), what)], 'S2acc')
+                        break
                     if what:
                         good = o in ('<', '>=')
                         put('S2', 'cmp(%s %s 0)' % (what, o), n, good, 'tested by %s 0' % o if good else
                             '`%s`: %s yields a position (0 is a valid one) or -1; `%s 0` treats position 0 like "absent"' % (render(n)[:70], what, o), 'S2')
                         break
+            # ---- S8
+            if n.k == 'ConditionalOperator' and n.kid('then') is not None and n.kid('else') is not None and not f.in_assert(n) \
+                    and SENSEPAT.search(render(n.kid('cond'))):
+                a8, b8 = strip(n.kid('then')), strip(n.kid('else'))
+                na = strip(a8.kids[0]) if a8.k == 'UnaryOperator' and a8.o in ('-', 'pre-') and a8.c else None
+                nb = strip(b8.kids[0]) if b8.k == 'UnaryOperator' and b8.o in ('-', 'pre-') and b8.c else None
+                if (na is None) != (nb is None):
+                    p8, q8 = (render(na), render(b8)) if na is not None else (render(a8), render(nb))
+                    put('S8', 'sense?(%s)' % p8[:30], n, p8 == q8, 'negates the other arm' if p8 == q8 else
+                        '`%s`: for one sense the value is %s, for the other it is minus %s - a different quantity, not the same one with the sign of the sense' % (render(n)[:90], p8[:30], q8[:30]), 'S8')
             # ---- S4 / S5: loops
             if n.k == 'ForStmt' and n.kid('cond') is not None:
                 c = strip(n.kid('cond'))
@@ -553,7 +585,7 @@ def _scan(fb):
                               'bodies are mirror images' if not why else ('listed as asymmetric: ' + acc) if acc else
                               '%s (line %d) and %s (line %d) have the same shape, but %s' % (f.short, f.line, gname, g.line, why[0])))
     _reference(comparable, nc)
-    need = {'S1', 'S2', 'S4', 'S5', 'S6', 'S7'}
+    need = {'S1', 'S2', 'S4', 'S5', 'S6', 'S7', 'S8'}
     if not need <= ctl:
         raise AnalysisBroken('shape rules: positive controls did not fire: %s' % sorted(need - ctl))
     for r, fl in FLOORS.items():
